@@ -329,7 +329,7 @@ def load_cases(ck, gen, n):
 def model_checks(ck, cases, model_out):
     """consistency inside the model run: unproved model parts against the proved spec values"""
     bad = []
-    stats = {"fast_nds=rank_list": 0, "dc_nds=nds_front=rank_list": 0, "contrib2d_ref=contrib_spec": 0, "best_subset(model)=best_subset(monitor)": 0,
+    stats = {"fast_nds=rank_list": 0, "dc_nds=nds_front=rank_list": 0, "contribs_md=contribs_spec": 0, "contribs3d=contribs_spec": 0, "contrib2d_ref=contrib_spec": 0, "best_subset(model)=best_subset(monitor)": 0,
              "hv3d=hv_spec": 0, "wfg=hv_spec": 0, "wfg_limit=python_limit": 0,
              "hv(hssp2d model selection)=best_subset_hv": 0}
     for c, (o, rc, _) in zip(cases, model_out):
@@ -363,6 +363,16 @@ def model_checks(ck, cases, model_out):
             if f["c2d"] != "-":
                 stats["contrib2d_ref=contrib_spec"] += 1
                 if f["c2d"] != f["spec"]: bad.append(("contrib2d_ref model differs from contribs_spec on a mutually non-dominated set", c, r))
+            if f.get("c3d", "-") != "-":
+                stats["contribs3d=contribs_spec"] += 1
+                if f["c3d"] != f["spec"]: bad.append(("contribs3d model (3-D contribution sweep) differs from contribs_spec on a mutually non-dominated set", c, r))
+                if [v for v, _ in kvlist(f["c3s"])] != ints(f["small"]) or [v for v, _ in kvlist(f["c3l"])] != ints(f["large"]):
+                    bad.append(("smallest_kv / largest_kv of the 3-D model differ from the k extremal contributions", c, r))
+            if f.get("md", "-") != "-":
+                stats["contribs_md=contribs_spec"] += 1
+                if f["md"] != f["spec"]: bad.append(("contribs_md model (HypervolumeContributionMD) differs from contribs_spec", c, r))
+                if [v for v, _ in kvlist(f["mds"])] != ints(f["small"]) or [v for v, _ in kvlist(f["mdl"])] != ints(f["large"]):
+                    bad.append(("smallest_kv / largest_kv of the MD model differ from the k extremal contributions", c, r))
         elif q == "S" and "best" in f:
             stats["best_subset(model)=best_subset(monitor)"] += 1
             keff = min(k, len(P))
